@@ -883,16 +883,27 @@ def compat_case(inp):
     return None
 
 
+# two focus registers and 2-3 start ops: small enough for all histories of length 2
+HI_SMALL = [
+    ((1, 12, 1), [["e", 0], ["p", 11]], [0], [["cx", ["e", 0], ["p", 11]], ["g", "H", ["p", 11]]]),
+    ((12, 1, 0), [["e", 1], ["e", 11]], [], [["cx", ["e", 1], ["e", 11]], ["g", "H", ["e", 11]]]),
+    ((1, 11, 1), [["e", 0], ["p", 10]], [0], [["cx", ["e", 0], ["p", 10]], ["g", "I", ["p", 10]], ["mcr", ["e", 0], ["p", 10], 0]]),
+    ((1, 1, 12), [["e", 0], ["p", 0]], [1, 11], [["cx", ["e", 0], ["p", 0]], ["mcr", ["e", 0], ["p", 0], 11], ["mz", ["p", 0], 1]]),
+]
+
+
 @S.item(
     "history.two_digit_registers",
     site=SITE + " (add, insert_at, remove_op, replace_op, unwrap_nodes, group_one_qubit_gates, remove_identity, add_*_register, copy)",
-    bound="circuits with 10..13 registers per type (HI_STARTS: (12e,13p,12c), (11e,11p,11c), (2e,12p,1c), (12e,1p,0c) and (10e,10p,10c) "
-    "where index 10 is created by the edits), start circuits of 3-6 ops on the wires e1/e10/e11, p1/p9/p10/p11/p12, c1/c9/c10/c11: "
-    "every edit history of length <= 2 (quick: length 2 over the reduced alphabet, first edit rich for the 3 smaller focus sets; "
-    "thorough: first edit rich everywhere, and length 3 from the two smallest starts) offered by options_focus() - all add / "
-    "insert positions of every op kind on the focus wires, every removable node, class replacements, unwrap, group, "
+    bound="circuits with 10..13 registers of a type: (a) HI_STARTS - (12e,13p,12c), (11e,11p,11c), (2e,12p,1c), (12e,1p,0c), and "
+    "(10e,10p,10c) where index 10 is created by the edits - start circuits of 3-6 ops on the wires e1/e10/e11, p1/p9/p10/p11/p12, "
+    "c1/c9/c10/c11: every single edit offered by options_focus() over the rich alphabet, families A and B (thorough: every "
+    "history of length <= 2, reduced alphabet, family B); (b) HI_SMALL - (1e,12p,1c), (12e,1p,0c), (1e,11p,1c), (1e,1p,12c) with two "
+    "focus registers and 2-3 start ops: every history of length <= 2, family A (thorough: first edit over the rich alphabet).  options_focus() "
+    "= all add / insert positions of every op kind on the focus wires, every removable node, class replacements, unwrap, group, "
     "remove_identity, register additions (also through ops naming the next free index, gaps refused), copy; WF (incl. EVERY "
-    "edge's reg/reg_type attributes against its key and wire, node_dict, edge_dict) + view update checked after every edit",
+    "edge's reg/reg_type attributes against its key and wire, node_dict, edge_dict) + view update checked after every edit; "
+    "quick 34 k histories",
     exhaustive=True,
     clause="after any sequence of edits: wires, indexes, edge attributes - on registers whose index has two digits",
 )
@@ -900,10 +911,23 @@ def hi_history_case(inp):
     return run_history(inp)
 
 
+HI_RANDOM = [
+    # (start registers, focus qubits, focus classical registers); the highest-index register of each type is always in focus
+    ((12, 13, 12), [["e", 1], ["e", 10], ["p", 1], ["p", 11], ["p", 12]], [1, 10]),
+    ((9, 9, 9), [["e", 1], ["e", 8], ["p", 1], ["p", 8]], [1, 8]),
+    ((11, 11, 11), [["e", 0], ["e", 10], ["p", 9], ["p", 10]], [0, 10]),
+    ((2, 12, 1), [["e", 0], ["e", 1], ["p", 1], ["p", 10], ["p", 11]], [0]),
+    ((12, 2, 12), [["e", 1], ["e", 10], ["e", 11], ["p", 1]], [1, 11]),
+    ((10, 10, 10), [["e", 9], ["p", 1], ["p", 9]], [9]),
+    ((0, 12, 11), [["p", 1], ["p", 10], ["p", 11]], [1, 10]),
+    ((13, 0, 0), [["e", 1], ["e", 10], ["e", 12]], []),
+]
+
+
 @S.item(
     "history.two_digit_registers_random",
     site=SITE,
-    bound="seeded random histories (quick: 64 x 150 edits, thorough: 300 x 300 edits) of all edit kinds on circuits that start with "
+    bound="seeded random histories (quick: 128 x 150 edits, thorough: 300 x 300 edits) of all edit kinds on circuits that start with "
     "9..12 registers per type and grow to at most 14 (addreg, ops naming the next free index), the ops drawn over a focus of 5-6 "
     "quantum and 3 classical registers most of which have index >= 10 (plus index 1 and 9); families A and B; WF + view after every edit",
     clause="after any sequence of edits (long histories) on registers whose index has two digits",
@@ -1068,6 +1092,31 @@ def run(tier, seed):
             seen.add(k)
             uniq.append(h)
     S.map("history.exhaustive", uniq, nontrivial=nontrivial_history)
+
+    # (H3) the same on registers whose index has two digits
+    hh = []
+    for regs, focus, cf, start in HI_STARTS:
+        for fam in ("A", "B"):
+            hh += enumerate_focus_histories(regs, start, focus, cf, fam, 1, True)
+        if thorough:
+            hh += enumerate_focus_histories(regs, start, focus, cf, "B", 2, False)
+    for i, (regs, focus, cf, start) in enumerate(HI_SMALL):
+        hh += enumerate_focus_histories(regs, start, focus, cf, "A", 2, thorough)
+    seen = set()
+    uniq = []
+    for h in hh:
+        k = repr(h)
+        if k not in seen:
+            seen.add(k)
+            uniq.append(h)
+    S.map("history.two_digit_registers", uniq, nontrivial=nontrivial_history)
+
+    hr = []
+    for j in range(300 if thorough else 128):
+        regs, focus, cfocus = HI_RANDOM[j % len(HI_RANDOM)]
+        hr.append({"regs": list(regs), "seed": seed * 100003 + j, "len": 300 if thorough else 150, "fam": "AB"[(j // len(HI_RANDOM)) % 2],
+                   "focus": focus, "cfocus": cfocus, "cap": [14, 14, 14]})
+    S.map("history.two_digit_registers_random", hr, chunksize=1)
 
     n_rand, length = (500, 300) if thorough else (160, 200)
     rinp = []
